@@ -51,6 +51,7 @@ INVARIANT ArgsPlaced
 INVARIANT StackAligned
 INVARIANT ReturnArrives
 INVARIANT CalleeSavedPreserved
+INVARIANT LiveValuesSurvive
 """
 INT_T = ["i8", "u8", "i16", "u16", "i32", "u32", "i64", "u64", "ptr"]
 SSE_T = ["f32", "f64"]
@@ -205,7 +206,26 @@ def ppci_sources(s):
     args = ", ".join("in_%d_%d" % (k, j) for j in range(len(s["tys"])))
     caller.append("  %sspy_%d(%s);" % ("gotc_%d = " % k if s["rty"] else "", k, args))
     caller.append("}")
-    return "\n".join(callee) + "\n", "\n".join(caller) + "\n"
+    # caller through a pointer: the callee's address sits in initialised data of a unit that also calls it directly
+    # (relocation of the data slot), the call is indirect, and copies of the arguments are live across it
+    cp = []
+    for j, t in enumerate(s["tys"]):
+        cp.append("extern %s in_%d_%d;" % (CT[t], k, j))
+        cp.append("%s keep_%d_%d;" % (CT[t], k, j))
+    pt = ", ".join(CT[t] for t in s["tys"]) or "void"
+    cp.append("extern %s spy_%d(%s);" % (R, k, pt))
+    cp.append("%s (*stab_%d[1])(%s) = { spy_%d };" % (R, k, pt, k))
+    if s["rty"]:
+        cp.append("%s gotp_%d;" % (R, k))
+    cp.append("void direct_%d(void) { spy_%d(%s); }" % (k, k, args))
+    cp.append("void callerp_%d(void) {" % k)
+    for j, t in enumerate(s["tys"]):
+        cp.append("  %s l%d = in_%d_%d;" % (CT[t], j, k, j))
+    cp.append("  %sstab_%d[0](%s);" % ("gotp_%d = " % k if s["rty"] else "", k, ", ".join("l%d" % j for j in range(len(s["tys"])))))
+    for j, t in enumerate(s["tys"]):
+        cp.append("  keep_%d_%d = l%d;" % (k, j, j))
+    cp.append("}")
+    return "\n".join(callee) + "\n", "\n".join(caller) + "\n", "\n".join(cp) + "\n"
 
 
 ASM = r"""
@@ -228,6 +248,12 @@ __asm__(
 "  movq %%xmm6, snap_xmm+48(%%rip)\n  movq %%xmm7, snap_xmm+56(%%rip)\n"
 "  movq %%rsp, snap_rsp(%%rip)\n"
 %(stackcopy)s
+/* a conforming callee may destroy every caller-saved register: do so */
+"  movabsq $0x7e7e7e7e7e7e7e7e, %%r10\n  movq %%r10, %%r11\n  movq %%r10, %%rcx\n  movq %%r10, %%rdx\n"
+"  movq %%r10, %%rsi\n  movq %%r10, %%rdi\n  movq %%r10, %%r8\n  movq %%r10, %%r9\n"
+"  movq %%r10, %%xmm1\n  movq %%r10, %%xmm2\n  movq %%r10, %%xmm3\n  movq %%r10, %%xmm4\n  movq %%r10, %%xmm5\n"
+"  movq %%r10, %%xmm6\n  movq %%r10, %%xmm7\n  movq %%r10, %%xmm8\n  movq %%r10, %%xmm9\n  movq %%r10, %%xmm10\n"
+"  movq %%r10, %%xmm11\n  movq %%r10, %%xmm12\n  movq %%r10, %%xmm13\n  movq %%r10, %%xmm14\n  movq %%r10, %%xmm15\n"
 "  movq spy_rax(%%rip), %%rax\n"
 "  movq spy_xmm0(%%rip), %%xmm0\n"
 "  ret\n"
@@ -305,6 +331,7 @@ def driver_texts(sigs):
             th.append("extern %s gotc_%d WEAKSYM;" % (R, k))
         th.append("extern %s callee_%d(%s) WEAKSYM;" % (R, k, pt))
         th.append("extern void caller_%d(void) WEAKSYM;" % k)
+        th.append("extern void callerp_%d(void) WEAKSYM;" % k)
         args = ", ".join("in_%d_%d" % (k, j) for j in range(len(s["tys"])))
         th.append("void thunk_%d(void) { %scallee_%d(%s); }" % (k, "got_%d = " % k if s["rty"] else "", k, args))
         aliases.append('".globl spy_%d\\n.set spy_%d, spy_common\\n"' % (k, k))
@@ -315,6 +342,11 @@ def driver_texts(sigs):
             mn.append("extern %s got_%d; extern %s gotc_%d WEAKSYM;" % (R, k, R, k))
         mn.append("extern void thunk_%d(void); extern void caller_%d(void) WEAKSYM; extern %s callee_%d(%s) WEAKSYM;" % (
             k, k, R, k, pt))
+        mn.append("extern void callerp_%d(void) WEAKSYM;" % k)
+        for j, t in enumerate(s["tys"]):
+            mn.append("extern %s keep_%d_%d WEAKSYM;" % (CT[t], k, j))
+        if s["rty"]:
+            mn.append("extern %s gotp_%d WEAKSYM;" % (R, k))
         body = ["static void test_callee_%d(void) {" % k, "  probe_call(thunk_%d);" % k]
         for j, t in enumerate(s["tys"]):
             body.append('  dump("seen%d", &seen_%d_%d, %d);' % (j, k, j, SIZE[t]))
@@ -330,9 +362,20 @@ def driver_texts(sigs):
             body.append('  dump("got", &gotc_%d, %d);' % (k, SIZE[s["rty"]]))
         body.append('  dump("before", sv_before, 56); dump("after", sv_after, 56);')
         body.append("}")
+        body.append("static void test_callerp_%d(void) {" % k)
+        body.append("  spy_rax = 0x%xUL; spy_xmm0 = 0x%xUL;" % (s["spy"][0], s["spy"][1]))
+        body.append("  probe_call(callerp_%d);" % k)
+        body.append('  dump("gpr", snap_gpr, 48); dump("xmm", snap_xmm, 64); dump("stack", snap_stack, %d); dump("rsp", &snap_rsp, 8);' % (8 * NSTACK))
+        if s["rty"]:
+            body.append('  dump("got", &gotp_%d, %d);' % (k, SIZE[s["rty"]]))
+        for j, t in enumerate(s["tys"]):
+            body.append('  dump("keep%d", &keep_%d_%d, %d);' % (j, k, j, SIZE[t]))
+        body.append('  dump("before", sv_before, 56); dump("after", sv_after, 56);')
+        body.append("}")
         mn += body
-        rows.append("  {test_callee_%d, (void *)callee_%d, %d}," % (k, k, 2 * k))
-        rows.append("  {test_caller_%d, (void *)caller_%d, %d}," % (k, k, 2 * k + 1))
+        rows.append("  {test_callee_%d, (void *)callee_%d, %d}," % (k, k, 3 * k))
+        rows.append("  {test_caller_%d, (void *)caller_%d, %d}," % (k, k, 3 * k + 1))
+        rows.append("  {test_callerp_%d, (void *)callerp_%d, %d}," % (k, k, 3 * k + 2))
     stackcopy = "".join('"  movq %d(%%rsp), %%rax\\n  movq %%rax, snap_stack+%d(%%rip)\\n"\n' % (8 + 8 * j, 8 * j)
                         for j in range(NSTACK))
     head = ASM % dict({"s%d" % j: v for j, v in enumerate(SENT)}, nstack=NSTACK, stackcopy=stackcopy,
@@ -342,12 +385,12 @@ def driver_texts(sigs):
     return "\n".join(th) + "\n", main
 
 
-def compile_c(src):
+def compile_c(src, level=0):
     """ppci: C -> relocatable ELF bytes, or the exception class name."""
     from ppci import api
 
     try:
-        obj = native.limited(lambda: api.cc(io.StringIO(src), "x86_64"), native.COMPILE_LIMIT_S, "x86_64 cc")
+        obj = native.limited(lambda: api.cc(io.StringIO(src), "x86_64", opt_level=level), native.COMPILE_LIMIT_S, "x86_64 cc")
     except Exception as e:
         return None, "error:codegen:" + type(e).__name__
     try:
@@ -384,9 +427,12 @@ def run_native(ctx, sigs):
                     if s["rty"] != "f32" else int.from_bytes(struct.pack("<f", 0.5 * rng.randrange(1, 100)), "little") | (0x7A7A7A7A << 32))
     built = {}
     for s in sigs:
-        ce, cr = ppci_sources(s)
-        built[(s["k"], "callee")] = compile_c(ce) + (ce,)
-        built[(s["k"], "caller")] = compile_c(cr) + (cr,)
+        ce, cr, cp = ppci_sources(s)
+        lv = 2 if s["k"] % 2 else 0          # odd signatures at -O2, even ones at -O0
+        built[(s["k"], "callee")] = compile_c(ce, lv) + (ce,)
+        built[(s["k"], "caller")] = compile_c(cr, lv) + (cr,)
+        # always optimised: the copies of the arguments must live in registers across the indirect call
+        built[(s["k"], "callerp")] = compile_c(cp, 2) + (cp,)
     recs = []
     with native.Workdir() as wd:
         pool = ThreadPoolExecutor(native.THREADS)
@@ -399,9 +445,9 @@ def run_native(ctx, sigs):
             outs.update(j.result())
         pool.shutdown()
     for s in sigs:
-        for d, kind in ((0, "callee"), (1, "caller")):
+        for d, kind in ((0, "callee"), (1, "caller"), (2, "callerp")):
             elf, err, src = built[(s["k"], kind)]
-            lines, how, code = outs.get(2 * s["k"] + d, ([], "none", 0))
+            lines, how, code = outs.get(3 * s["k"] + d, ([], "none", 0))
             dd = parse_dump(lines)
             if elf is None:
                 outcome = err
@@ -416,7 +462,8 @@ def run_native(ctx, sigs):
             else:
                 outcome = "ok"
             passed = [v[1] for v in s["vals"]]
-            r = {"kind": kind, "sig": s, "tys": s["tys"], "rty": s["rty"], "outcome": outcome, "passed": passed,
+            r = {"kind": "caller" if kind == "callerp" else kind, "via": "pointer" if kind == "callerp" else "direct",
+                 "sig": s, "tys": s["tys"], "rty": s["rty"], "outcome": outcome, "passed": passed,
                  "before": words8(dd.get("before", [])), "after": words8(dd.get("after", [])),
                  "got": dd.get("got", []), "src": src}
             if kind == "callee":
@@ -427,6 +474,8 @@ def run_native(ctx, sigs):
                 r["snap"] = {"gpr": words8(dd.get("gpr", [])), "xmm": words8(dd.get("xmm", [])),
                              "stack": words8(dd.get("stack", [])), "rsp16": (rsp + 8) % 16 if "rsp" in dd else -1}
                 r["retv"] = list(s["spy"][1 if s["rty"] in SSE_T else 0].to_bytes(8, "little")) if s["rty"] else []
+                if kind == "callerp":
+                    r["kept"] = [dd.get("keep%d" % j, []) for j in range(len(s["tys"]))]
             recs.append(r)
     return recs
 
@@ -442,10 +491,10 @@ def _run_batch(wd, sigs, built):
         raise MachineryError(str(e))
     members = []
     for s in sigs:
-        for d, kind in ((0, "callee"), (1, "caller")):
+        for d, kind in ((0, "callee"), (1, "caller"), (2, "callerp")):
             elf = built[(s["k"], kind)][0]
             if elf is not None:
-                members.append((2 * s["k"] + d, elf))
+                members.append((3 * s["k"] + d, elf))
     return _link_run(wd, [o1, o2], members)
 
 
@@ -490,7 +539,7 @@ def _link_run(wd, base, members):
 def call_key(r):
     s = r["sig"]
     # label: parameter types for which the implementation's own location is a stack slot (names the key only)
-    return "C40:call:%s:mem=%s:sig=%s:ret=%s" % (r["kind"], "+".join(r.get("memtys", [])) or "-", ",".join(s["tys"]) or "void",
+    return "C40:call:%s:mem=%s:sig=%s:ret=%s" % (r["kind"] + ("-via-pointer" if r.get("via") == "pointer" else ""), "+".join(r.get("memtys", [])) or "-", ",".join(s["tys"]) or "void",
                                                 s["rty"] or "void")
 
 
@@ -543,7 +592,7 @@ class Engine:
         ctx.cov["native_outcomes"] = {}
         for r in calls:
             ctx.cov["native_outcomes"][r["outcome"]] = ctx.cov["native_outcomes"].get(r["outcome"], 0) + 1
-        allrecs = recs + [{k: v for k, v in r.items() if k not in ("sig", "src")} for r in calls]
+        allrecs = recs + [{k: v for k, v in r.items() if k not in ("sig", "src", "via")} for r in calls]
         meta = recs + calls
         if only:
             keep = [j for j, r in enumerate(meta) if r["key"] == only]
@@ -573,3 +622,7 @@ class Engine:
                                                                      hx(rec["snap"]["stack"]), rec["snap"]["rsp16"])) if "snap" in rec else "")
 
         core.eval_records(ctx, "X64Abi_Eval", EVAL_CFG, allrecs, keyfn=lambda r: r["key"], whatfn=what, workers=4)
+        import gc
+
+        gc.collect()
+        gc.freeze()
